@@ -279,31 +279,31 @@ func isQuote(c byte) bool { return c == '"' || c == '\'' || c == '`' }
 
 // ---- contracts ----
 
-//@ func isWhitespace
+//@ func isWhitespace(ch)
 //@   props C10 C11
 //@   ensures [class] result == specWS(ch)
 
-//@ func isLetter
+//@ func isLetter(ch)
 //@   props C10 C11
 //@   ensures [class] result == specLetter(ch)
 
-//@ func isDigit
+//@ func isDigit(ch)
 //@   props C10 C11 C07
 //@   ensures [class] result == specDigit(ch)
 
-//@ func isBinaryDigit
+//@ func isBinaryDigit(ch)
 //@   props C10 C11 C07
 //@   ensures [class] result == (ch == '0' || ch == '1')
 
-//@ func isOctalDigit
+//@ func isOctalDigit(ch)
 //@   props C10 C11 C07
 //@   ensures [class] result == ('0' <= ch && ch <= '7')
 
-//@ func isHexDigit
+//@ func isHexDigit(ch)
 //@   props C10 C11 C07
 //@   ensures [class] result == specHex(ch)
 
-//@ func hexDigitValue
+//@ func hexDigitValue(ch)
 //@   props C10 C11 C07
 //@   ensures [value] result == specHexVal(ch)
 
@@ -346,7 +346,7 @@ func utf8Dec(b []byte) int {
 }
 
 // Every Unicode scalar value is encoded as its well-formed UTF-8 sequence (decoder written from RFC 3629).
-//@ func encodeUTF8
+//@ func encodeUTF8(codePoint)
 //@   props C10 C11 C07
 //@   mode bv
 //@   ensures [len] 1 <= len(result) && len(result) <= 4
@@ -361,11 +361,11 @@ func specStay(v int) bool {
 	return v == '"' || v == '\\' || v == '\n' || v == '\r' || (0xD800 <= v && v <= 0xDFFF)
 }
 
-//@ func mustStayEscaped
+//@ func mustStayEscaped(codePoint)
 //@   props C07 C11
 //@   ensures [class@C07] result == specStay(codePoint)
 
-//@ func (l *Lexer) ReadChar
+//@ func (l *Lexer) ReadChar()
 //@   props C10 C11
 //@   requires lexInv(l) || lexInit(l)
 //@   modifies l.position, l.readPosition, l.CurrentChar, l.Line, l.Column
@@ -373,24 +373,24 @@ func specStay(v int) bool {
 //@   ensures [step] implies(!old(lexInit(l)), l.position == ite(old(l.position) < len(l.input), old(l.position)+1, len(l.input)))
 //@   ensures [first] implies(old(lexInit(l)), l.position == 0)
 
-//@ func (l *Lexer) PeekChar
+//@ func (l *Lexer) PeekChar()
 //@   props C10 C11
 //@   requires lexInv(l)
 //@   ensures [peek] result == byteAt(l.input, l.position+1)
 
-//@ func (l *Lexer) NewToken
+//@ func (l *Lexer) NewToken(tokenType, literal)
 //@   props C10 C14 C15
 //@   requires lexInv(l)
 //@   ensures [fields] result.Type == tokenType && result.Literal == literal && result.Start == token.Position{Line: l.Line, Column: l.Column} && result.End == result.Start && result.AfterNewline == l.hadNewlineBefore
 //@   ensures [trivia] sameStrs(result.LeadingComments, l.leadingComments)
 
-//@ func (l *Lexer) NewTokenAt
+//@ func (l *Lexer) NewTokenAt(tokenType, literal, startLine, startColumn)
 //@   props C10 C14 C15
 //@   requires lexInv(l)
 //@   ensures [fields] result.Type == tokenType && result.Literal == literal && result.Start == token.Position{Line: startLine, Column: startColumn} && result.End == token.Position{Line: l.Line, Column: l.Column} && result.AfterNewline == l.hadNewlineBefore
 //@   ensures [trivia] sameStrs(result.LeadingComments, l.leadingComments)
 
-//@ func (l *Lexer) readIdentifier
+//@ func (l *Lexer) readIdentifier()
 //@   props C10 C11
 //@   requires lexInv(l) && l.position < len(l.input)
 //@   modifies l.position, l.readPosition, l.CurrentChar, l.Line, l.Column
@@ -401,7 +401,7 @@ func specStay(v int) bool {
 //@   ensures [slice] result == l.input[old(l.position):l.position]
 //@   ensures [maximal] l.position == identEnd(l.input, old(l.position))
 
-//@ func (l *Lexer) readNumber
+//@ func (l *Lexer) readNumber()
 //@   props C10 C11 C07
 //@   requires lexInv(l) && l.position < len(l.input) && specDigit(l.CurrentChar)
 //@   modifies l.position, l.readPosition, l.CurrentChar, l.Line, l.Column
@@ -416,7 +416,7 @@ func specStay(v int) bool {
 //@   ensures [slice] result0 == l.input[old(l.position):l.position]
 //@   ensures [type] result1 == token.INT || result1 == token.FLOAT
 
-//@ func (l *Lexer) readHexNumber
+//@ func (l *Lexer) readHexNumber()
 //@   props C10 C11 C07
 //@   requires lexInv(l) && l.position < len(l.input)
 //@   modifies l.position, l.readPosition, l.CurrentChar, l.Line, l.Column
@@ -427,7 +427,7 @@ func specStay(v int) bool {
 //@   ensures [slice] result0 == l.input[old(l.position):l.position]
 //@   ensures [type] result1 == token.INT
 
-//@ func (l *Lexer) readBinaryNumber
+//@ func (l *Lexer) readBinaryNumber()
 //@   props C10 C11 C07
 //@   requires lexInv(l) && l.position < len(l.input)
 //@   modifies l.position, l.readPosition, l.CurrentChar, l.Line, l.Column
@@ -438,7 +438,7 @@ func specStay(v int) bool {
 //@   ensures [slice] result0 == l.input[old(l.position):l.position]
 //@   ensures [type] result1 == token.INT
 
-//@ func (l *Lexer) readOctalNumber
+//@ func (l *Lexer) readOctalNumber()
 //@   props C10 C11 C07
 //@   requires lexInv(l) && l.position < len(l.input)
 //@   modifies l.position, l.readPosition, l.CurrentChar, l.Line, l.Column
@@ -449,7 +449,7 @@ func specStay(v int) bool {
 //@   ensures [slice] result0 == l.input[old(l.position):l.position]
 //@   ensures [type] result1 == token.INT
 
-//@ func (l *Lexer) readRawString
+//@ func (l *Lexer) readRawString()
 //@   props C10 C11 C07
 //@   loop 1 each [plain@C07] implies(!(byteAt(l.input, atHead(l.position)+1) == '\\' && byteAt(l.input, atHead(l.position)+2) == '`'), writeSeq(evByte(byteAt(l.input, atHead(l.position)+1))) && l.position == atHead(l.position)+1)
 //@   loop 1 each [backtick@C07] implies(byteAt(l.input, atHead(l.position)+1) == '\\' && byteAt(l.input, atHead(l.position)+2) == '`', writeSeq(evByte('`')) && l.position == atHead(l.position)+2)
@@ -463,7 +463,7 @@ func specStay(v int) bool {
 // C07: what one iteration of the scanner writes for each kind of string element (c1, c2, ... are the bytes after the
 // cursor at the head of the iteration): ordinary bytes verbatim (a double quote gets a backslash: the printer re-quotes
 // with double quotes), unknown escapes verbatim, \xHH / \uHHHH decoded only when the value can be written raw.
-//@ func (l *Lexer) readString
+//@ func (l *Lexer) readString(delimiter)
 //@   props C10 C11 C07
 //@   requires lexInv(l) && l.position < len(l.input)
 //@   modifies l.position, l.readPosition, l.CurrentChar, l.Line, l.Column
@@ -489,7 +489,7 @@ func specStay(v int) bool {
 //@   ensures [cursor] lexInv(l)
 //@   ensures [progress] l.position > old(l.position)
 
-//@ func (l *Lexer) readLeadingComments
+//@ func (l *Lexer) readLeadingComments()
 //@   props C10 C11 C15
 //@   requires lexInv(l)
 //@   modifies l.position, l.readPosition, l.CurrentChar, l.Line, l.Column, l.hadNewlineBefore, l.leadingComments
@@ -509,7 +509,7 @@ func specStay(v int) bool {
 //@   ensures [skip] l.position == skipTrivia(l.input, old(l.position))
 //@   ensures [nl] l.hadNewlineBefore == hasNL(l.input, old(l.position), l.position)
 
-//@ func baseNextToken
+//@ func baseNextToken(l)
 //@   props C10 C11 C08
 //@   requires l != nil && lexInv(l)
 //@   modifies l.position, l.readPosition, l.CurrentChar, l.Line, l.Column
@@ -533,7 +533,7 @@ func specStay(v int) bool {
 // pass-through: interceptor(l, next) == next() -- the hypothesis of property C04).
 //@ fieldcontract Lexer.nextToken lexer.baseNextToken
 
-//@ func (l *Lexer) NextToken
+//@ func (l *Lexer) NextToken()
 //@   props C10 C11 C04 C15
 //@   requires lexInv(l)
 //@   modifies l.position, l.readPosition, l.CurrentChar, l.Line, l.Column, l.hadNewlineBefore, l.leadingComments
@@ -549,24 +549,24 @@ func specStay(v int) bool {
 //@   ensures [nl] result.AfterNewline == hasNL(l.input, old(l.position), skipTrivia(l.input, old(l.position)))
 //@   ensures-def [origin] LexTok(result)
 
-//@ func (l *Lexer) useTokenInterceptor
+//@ func (l *Lexer) useTokenInterceptor(interceptor)
 //@   props C04 C10
 //@   funcvar interceptor passthrough
 //@   modifies l.nextToken
 
-//@ func (l *Lexer) useTokenInterceptor$1
+//@ func (l *Lexer) useTokenInterceptor$1(l)
 //@   props C04 C10
 //@   sameas lexer.baseNextToken
 //@   funcvar next lexer.baseNextToken
 //@   funcvar interceptor passthrough
 
-//@ func newWithOptions
+//@ func newWithOptions(input, interceptors)
 //@   props C10 C04 C14
 //@   ensures [fresh] result != nil && lexInv(result) && result.position == 0 && result.input == input
 //@   ensures [fresh.object@C14] fresh(result)
 //@   loop 1 invariant [state] l != nil && l.position == 0 && l.readPosition == 0 && l.Column == -1 && l.Line == 0 && l.CurrentChar == 0 && l.input == input
 
-//@ func (lb *Builder) Build
+//@ func (lb *Builder) Build(input)
 //@   props C10 C14 C04
 //@   ensures [fresh] result != nil && lexInv(result) && result.position == 0 && result.input == input
 //@   ensures [fresh.object@C14] fresh(result)
@@ -586,12 +586,12 @@ func lbInv(lb *Builder) bool {
 		})
 }
 
-//@ func NewBuilder
+//@ func NewBuilder()
 //@   props C05 C14
 //@   ensures [fresh@C14] result != nil && fresh(result) && fresh(result.dynamicTokens)
 //@   ensures [inv@C05] lbInv(result) && result.nextTokenID == token.DYNAMIC_TOKENS_START && len(result.interceptors) == 0
 
-//@ func (lb *Builder) RegisterTokenType
+//@ func (lb *Builder) RegisterTokenType(name)
 //@   props C05 C14
 //@   requires [inv] lbInv(lb)
 //@   modifies lb.nextTokenID, lb.dynamicTokens[*]
@@ -603,7 +603,7 @@ func lbInv(lb *Builder) bool {
 //@   ensures [recorded@C05] has(lb.dynamicTokens, name) && lb.dynamicTokens[name] == result
 //@   ensures [dynamic@C05] result >= token.DYNAMIC_TOKENS_START && result > token.NULL
 
-//@ func (lb *Builder) UseTokenInterceptor
+//@ func (lb *Builder) UseTokenInterceptor(interceptor)
 //@   props C04 C14
 //@   modifies lb.interceptors
 //@   ensures [append@C04] len(lb.interceptors) == len(old(lb.interceptors))+1 && forall(0, len(old(lb.interceptors)), func(i int) bool { return eq(lb.interceptors[i], old(lb.interceptors)[i]) }) && eq(lb.interceptors[len(old(lb.interceptors))], interceptor)
